@@ -221,6 +221,22 @@ def describe(line, whys):
     return 'history [%s]: %s' % (', '.join(regs), ' | '.join(out[:3]))
 
 
+def cmd_protocol(ctx):
+    """Design model of the command minifier's temp-file protocol (spec/CmdProto.tla): the proposed patch (argument
+    vector copied per call) satisfies EachCallOwnInput for every argument form; the code as it is (shared vector)
+    violates it for the $in / $in $out forms - the design-level explanation of the pinned known finding.
+    Information only: verdicts come from the replayed behaviours."""
+    res = {}
+    for cfg in ('CmdProto_fixed.cfg', 'CmdProto_fixedIn.cfg', 'CmdProto_fixedStd.cfg', 'CmdProto_currentStd.cfg'):
+        vlib.tlc_mc(ctx, 'CmdProto', cfg, workers=1, heap='1g', timeout=300)
+        res[cfg[9:-4]] = 'holds'
+    for cfg in ('CmdProto_current.cfg', 'CmdProto_currentIn.cfg'):
+        r = vlib.tlc(ctx, 'CmdProto', cfg, workers=1, heap='1g', timeout=300)
+        res[cfg[9:-4]] = 'EachCallOwnInput violated (as the real code: see known findings)' \
+            if 'EachCallOwnInput' in r['invariant_violations'] else 'DRIFT: design model of the current code no longer shows the defect'
+    return res
+
+
 def run(ctx):
     exe = vlib.build_harness(ctx, 'c15')
     quick = ctx.quick()
@@ -231,8 +247,9 @@ def run(ctx):
     if len(hists) != r['distinct'] or len(lits) != 3 or len(qtable) < 40:
         raise vlib.Infra('could not read the generated histories (%d of %d) / tables' % (len(hists), r['distinct']))
     ctx.coverage['histories_enumerated'] = len(hists)
+    ctx.coverage['cmd_protocol_design'] = cmd_protocol(ctx)
     # random walks beyond the exhaustive bound
-    nsim = 150 if quick else 2500
+    nsim = 80 if quick else 2500
     rs = vlib.tlc(ctx, 'Registry', 'Registry_sim.cfg', workers=1, simulate='num=%d' % nsim, depth=9, seed=ctx.seed,
                   timeout=900)
     if rs['errors'] or rs['invariant_violations']:
@@ -243,8 +260,12 @@ def run(ctx):
 
     behaviours = []
     if quick:
-        # every history up to 3 registrations; 5 of the 9 query mimetypes each with a seeded decoration and operation
-        for h in hists:
+        # every history up to 2 registrations and a seeded 2500 of the 5832 of length 3 (all of them are model-checked);
+        # 5 of the 9 query mimetypes each with a seeded decoration and operation
+        short = [h for h in hists if len(h) <= 2]
+        long = vlib.sample([h for h in hists if len(h) == 3], 2500, ctx.rnd)
+        ctx.coverage['histories_len3_replayed'] = len(long)
+        for h in short + long:
             behaviours.append(build(ctx, h, lits, qtable, 1, 1, False, nmimes=5))
         for h in sims:
             behaviours.append(build(ctx, list(h), lits, qtable, 1, 3, False, interleave=True))
@@ -328,10 +349,13 @@ def run(ctx):
              'plus TLC -simulate walks to 8 registrations.  Excluded construct (known finding, pinned witness kept): a '
              'command registered with $in/$out arguments being invoked more than once on the same registry.' % maxlen,
         samples=samples,
-        exhaustive=True,
-        exhaustive_bound='all registration histories of length <= %d over {Add,AddFunc,AddCmd,AddRegexp,AddFuncRegexp,'
-                         'AddCmdRegexp} x 3 targets; %s' % (maxlen, '5 of the 9 query mimetypes per history with a seeded decoration and operation' if quick else
-                                                            'full 45-string query table x {Match,Minify,MinifyMimetype} up to length 2, two decorations x both operations at length 3, a seeded 30000-history sample of length 4'),
+        exhaustive=not quick,
+        exhaustive_bound=('model checking: all registration histories of length <= %d over {Add,AddFunc,AddCmd,AddRegexp,'
+                          'AddFuncRegexp,AddCmdRegexp} x 3 targets.  Replay on the real object: ' % maxlen) +
+                         ('all histories of length <= 2 and a seeded 2500 of length 3, 5 of the 9 query mimetypes each (sampled, not exhaustive)'
+                          if quick else
+                          'every history of length <= 3 x every one of the 9 query mimetypes x {Match, Minify} (full 45-string table x '
+                          '{Match,Minify,MinifyMimetype} up to length 2, two decorations per mimetype at length 3); length 4: seeded 30000 of 104976'),
     ))
     ctx.assumptions += [
         'TLC evaluates Registry.Lookup/Split; Split is cross-checked against parse.Mediatype on every query (disagreement = exit 2)',
